@@ -26,3 +26,5 @@ func verifSymBytes(name string, b []byte)
 func verifSortTies(on bool)
 func verifThreadsBlocked() int
 func verifParam(name string, def int) int
+func verifNative() bool
+func verifNativeSleep()
